@@ -227,4 +227,39 @@ theorem mainLoop_eq (c : Cfg) (hz : c.intervalZero = false) (l : Loop) (inputs :
   | nil => simp [mainLoop, linesFrom]
   | cons i rest ih => simp [mainLoop, linesFrom, hz, ih, List.append_assoc]
 
+/-! ## every written line -/
+
+theorem mem_exabgpLines (c : Cfg) (t : St) (ln : String) (h : ln ∈ exabgpLines c t) :
+    t.writes = true ∧ ∃ k ip, c.ips[k]? = some ip ∧ ln = (specCmd c t k ip).render := by
+  cases hw : t.writes
+  · simp [exabgpLines, hw] at h
+  · refine ⟨rfl, ?_⟩
+    rw [exabgpLines_spec c t hw] at h
+    obtain ⟨k, hk⟩ := List.mem_iff_getElem?.1 h
+    rw [List.getElem?_mapIdx] at hk
+    cases hip : c.ips[k]? with
+    | none => simp [hip] at hk
+    | some ip =>
+      simp only [hip, Option.map_some, Option.some.injEq] at hk
+      exact ⟨k, ip, hip, hk.symm⟩
+
+theorem mem_stepLines (c : Cfg) (l : Loop) (i : Inp) (ln : String) (h : ln ∈ stepLines c l i) :
+    ∃ t, ln ∈ exabgpLines c t := by
+  unfold stepLines at h
+  cases hh : handed c l i with
+  | none => simp [hh] at h
+  | some t => simp only [hh] at h; exact ⟨t, h⟩
+
+theorem mem_mainLoop (c : Cfg) (l : Loop) (inputs : List Inp) (ln : String)
+    (h : ln ∈ mainLoop c l inputs) : ∃ t, ln ∈ exabgpLines c t := by
+  induction inputs generalizing l with
+  | nil => exact ⟨.exit, by simpa [mainLoop] using h⟩
+  | cons i rest ih =>
+    simp only [mainLoop] at h
+    split at h
+    · exact mem_stepLines c l i ln h
+    · rcases List.mem_append.1 h with h1 | h2
+      · exact mem_stepLines c l i ln h1
+      · exact ih _ h2
+
 end Exa.Health
